@@ -1,7 +1,21 @@
 #!/bin/bash
+# Builds the framework from files on disk only (offline) and warms the build cache for the three
+# worker flavours (normal, -fine, -race) so that the first check does not pay for them.
 set -e
 cd "$(dirname "$0")"
 export GOFLAGS=-mod=mod GOPROXY=off GOSUMDB=off GOTOOLCHAIN=local
 mkdir -p bin work evidence
 (cd engine && go build -o ../bin/instrument ./cmd/instrument && go build -o ../bin/check ./cmd/check)
+cp /repo/go.sum harness/go.sum
+W=work/setup-warm
+rm -rf "$W"; mkdir -p "$W/n" "$W/f"
+./bin/instrument -out "$PWD/$W/n" >/dev/null
+./bin/instrument -fine -out "$PWD/$W/f" >/dev/null
+(cd harness && go build -tags verif -overlay "$OLDPWD/$W/n/overlay.json" -o "$OLDPWD/$W/w" . ) &
+(cd harness && go build -tags verif -overlay "$OLDPWD/$W/f/overlay.json" -o "$OLDPWD/$W/wf" . ) &
+(cd harness && go build -race -tags verif -overlay "$OLDPWD/$W/n/overlay.json" -o "$OLDPWD/$W/wr" . ) &
+wait
+# smoke test: the worker lists its scenarios
+"$W/w" -list | cut -f1 | sort -u | tr '\n' ' '; echo
+rm -rf "$W"
 echo setup ok
